@@ -285,6 +285,15 @@ class ExprMixin:
     def ev_IfExp(self, e, fr, st):
         site = self.site_of(e, fr)
         c = self.val(e.test, fr, st)
+        body, orelse = e.body, e.orelse
+        while c.op == "UnaryOp" and c.attr == "Not":      # canonical: positive condition (see ex_If)
+            c = c.args[0]
+            body, orelse = orelse, body
+
+        class _V:
+            pass
+        e = _V()
+        e.body, e.orelse = body, orelse
         t = self.truth(c)
         if t is True:
             return self.eval(e.body, fr, st)
